@@ -329,4 +329,60 @@ theorem float_model_rel_error {u : Rat} (h0 : 0 ≤ u) (h1 : u ≤ 1) {m : Nat} 
 example : FloatMul (1 / 2 ^ 53) ratMul ∧ (0 : Rat) ≤ 1 / 2 ^ 53 ∧ (1 : Rat) / 2 ^ 53 ≤ 1 :=
   ⟨floatMul_exact _ (by norm_num), u53_ok.1, u53_ok.2⟩
 
+/-! ### Phase 3: exact float products, order of the term list, argument shapes -/
+
+/-- exactly representable products are returned exactly (what correct rounding gives) ⇒ on inputs `m·2^e` with
+`|m| ≤ M`, `|e| ≤ E`, `M^d ≤ 2^53`, `d·E ≤ 970` (d = largest term degree) the float encoder IS the exact encoder:
+no rounding at all, dense and sparse — this replaces the assumed `FloatMul` law on the dyadic value pools -/
+theorem encode_float_exact_dyadic {fmul : Rat → Rat → Rat} (hf : ExactOn fmul) (M E : Nat) (hM : 1 ≤ M)
+    (is : List Inter) (kw : List (Char × NsVal)) (hne : ∀ t ∈ strTerms is, t ≠ [])
+    (hb : M ^ maxDeg is ≤ 2 ^ 53) (he : maxDeg is * E ≤ 970)
+    (hd : ∀ c, ∀ v ∈ featsDense kw c, Dy M E v) (hs : ∀ c, ∀ p ∈ featsSparse kw c, Dy M E p.2) :
+    encodeG fmul Cfg.fixed is kw = encode Cfg.fixed is kw :=
+  encode_float_exact_dyadic' hf M E hM is kw hne hb he hd hs
+
+/-- the hypotheses are met by `x=[1.5, 2.75]` under `'xxx'` with `M = 11`, `E = 2`; exact multiplication is an `ExactOn` -/
+example : ExactOn ratMul
+    ∧ (∀ c, ∀ v ∈ featsDense [('x', .dense [.num (3 / 2), .num (11 / 4)])] c, Dy 11 2 v)
+    ∧ (∀ c, ∀ p ∈ featsSparse [('x', .dense [.num (3 / 2), .num (11 / 4)])] c, Dy 11 2 p.2)
+    ∧ 11 ^ maxDeg [.term ['x', 'x', 'x']] ≤ 2 ^ 53 ∧ maxDeg [.term ['x', 'x', 'x']] * 2 ≤ 970 :=
+  ⟨exactOn_ratMul, dyadic_example⟩
+
+/-- the general form: any multiplication that is exact on a degree-graded family of numbers containing the inputs -/
+theorem encode_float_exact_graded {P : Nat → Rat → Prop} {D : Nat} {fmul : Rat → Rat → Rat} (hg : Graded P D fmul)
+    (is : List Inter) (kw : List (Char × NsVal)) (hne : ∀ t ∈ strTerms is, t ≠ []) (hD : maxDeg is ≤ D)
+    (hd : ∀ c, ∀ v ∈ featsDense kw c, P 1 v) (hs : ∀ c, ∀ p ∈ featsSparse kw c, P 1 p.2) :
+    encodeG fmul Cfg.fixed is kw = encode Cfg.fixed is kw := encode_graded_exact hg is kw hne hD hd hs
+
+/-- the order in which a caller lists its (distinct) terms only permutes the encoding … -/
+theorem encode_terms_order_perm {α : Type} (mul : α → α → α) (one : α) (F : Char → List α) {ts ts' : List (List Char)}
+    (h : ts.Perm ts') : (termsS mul one F ts).Perm (termsS mul one F ts') := termsS_perm mul one F h
+
+/-- … so a linear consumer whose weights are attached to the features (LinUCB's `theta @ features`, weights and
+features laid out by the same encoder) computes the same score for every order of the term list — the learners'
+`list(set(…))` order is unobservable for such a consumer -/
+theorem linear_consumer_order_invariant (w : String → Rat) (F : Char → List (String × Rat)) {ts ts' : List (List Char)}
+    (h : ts.Perm ts') :
+    ((termsS pairMul pairOne F ts).map (fun kv => w kv.1 * kv.2)).sum
+      = ((termsS pairMul pairOne F ts').map (fun kv => w kv.1 * kv.2)).sum := named_score_order_invariant w F h
+
+example : (['a'] :: [['a', 'x']] : List (List Char)).Perm [['a', 'x'], ['a']] := List.Perm.swap _ _ _
+
+/-- translator obligation (shapes): with the treatments of the term argument extracted from the source, every
+accepted shape of `reward_features` — a bare str (ONE term), a list, a tuple — reaches the encoder as the term list
+the caller means, through `Environments.from_linear_synthetic` and through the constructor -/
+theorem synthetic_entry_shapes (s : Shape) :
+    normalise (Coba.Generated.C20.envNorms ++ Coba.Generated.C20.syntheticNorms) s = s.meaning
+    ∧ normalise Coba.Generated.C20.syntheticNorms s = s.meaning := by cases s <;> exact ⟨rfl, rfl⟩
+
+/-- the learners accept sequences (`features: Sequence[str]`): lists and tuples reach the encoder unchanged -/
+theorem learner_entry_shapes (ts : List Inter) :
+    normalise Coba.Generated.C20.linucbNorms (.list ts) = ts ∧ normalise Coba.Generated.C20.linucbNorms (.tuple ts) = ts
+    ∧ normalise Coba.Generated.C20.lintsNorms (.list ts) = ts ∧ normalise Coba.Generated.C20.lintsNorms (.tuple ts) = ts :=
+  ⟨rfl, rfl, rfl, rfl⟩
+
+/-- why the obligation matters (round d): a `list(...)` before the constructor splits a bare str into characters -/
+theorem shape_listof_counterexample :
+    normalise [Norm.listOf, Norm.wrapStr] (.str ['x', 'a']) ≠ (Shape.str ['x', 'a']).meaning := normalise_listOf_splits
+
 end Coba.C20
